@@ -53,6 +53,17 @@ def cases(ctx):
         else:
             allv = np.sort(rng.normal(0, 1, npos + nneg))
             pos, neg = (allv[nneg:], allv[:nneg]) if kind == "separated" else (allv[:npos], allv[npos:])
+        if i in (11, 901):
+            # a large evaluation set (tens of thousands of scored samples) with small tie groups centred on the power-of-two ranks - where code
+            # that walks the pooled scores in blocks would have its seams; judged by M-auc against the exactly counted Mann-Whitney statistic
+            n_big = int(rng.integers(66000, 72000))
+            vals = np.cumsum(rng.uniform(0.5, 1.5, n_big)).round(3)
+            for k_ in range(8, 17):
+                r_ = 2 ** k_
+                m_ = int(rng.choice([2, 4, 6]))
+                vals[r_ - m_ // 2: r_ + m_ // 2] = vals[r_]
+            lab_ = rng.random(n_big) < float(rng.uniform(0.3, 0.7))
+            pos, neg, kind = vals[lab_] * 1e-3, vals[~lab_] * 1e-3, "large-pow2ties"
         ep, en = gen.easy(rng)
         sc, ec = gen.cfg(rng)
         if i % 17 == 4:
@@ -69,7 +80,7 @@ def cases(ctx):
         if rng.random() < 0.05:
             up = lo
         yield {"pos": pos, "neg": neg, "ep": ep, "en": en, "sc": sc, "ec": ec, "kind": kind, "lower": lo, "upper": up, "mid_u": float(rng.uniform()),
-               "via": str(rng.choice(derive.VIAS)), "_seed": int(rng.integers(1 << 31))}
+               "via": "ctor" if kind.startswith("large") else str(rng.choice(derive.VIAS)), "_seed": int(rng.integers(1 << 31))}
 
 
 def execute(ctx, case):
